@@ -192,6 +192,29 @@ Proof.
   symmetry. apply orb_true_iff. destruct H as [H|H]; [left|right]; apply Z.ltb_lt; exact H.
 Qed.
 
+(* ReadFrom ends without error only on io.EOF itself (script answer 1); every other error value - in particular
+   one that merely WRAPS io.EOF, which the harness scripts as its own error number - is returned as it is, together
+   with what was read; WriteTo returns the writer's error as it is *)
+Theorem readfrom_error_as_is s chunk e : (e <> 0)%Z -> (e <> 1)%Z -> (e <> -1)%Z ->
+  snd (sstep s (ReadFrom [(chunk, e)])) = (st_user e, [zn (length chunk)]) /\
+  un (fst (sstep s (ReadFrom [(chunk, e)]))) = un s ++ chunk.
+Proof.
+  intros H0 H1 H2. cbn [sstep sread_from].
+  replace (e =? -1)%Z with false by (symmetry; apply Z.eqb_neq; exact H2).
+  replace (e =? 1)%Z with false by (symmetry; apply Z.eqb_neq; exact H1).
+  replace (e =? 0)%Z with false by (symmetry; apply Z.eqb_neq; exact H0).
+  cbn [fst snd un mk]. rewrite Z.add_0_l. split; reflexivity.
+Qed.
+Theorem readfrom_eof_is_nil s chunk : snd (sstep s (ReadFrom [(chunk, 1%Z)])) = (st_ok, [zn (length chunk)]).
+Proof. cbn [sstep sread_from Z.eqb fst snd]. rewrite Z.add_0_l. reflexivity. Qed.
+Theorem writeto_error_as_is s m e : un s <> [] -> (0 <= m <= zn (length (un s)))%Z -> (e <> 0)%Z ->
+  snd (sstep s (WriteTo m e)) = (st_user e, m :: un s).
+Proof.
+  intros Hu Hm He. cbn [sstep]. destruct (un s) as [|c t] eqn:E; [congruence|].
+  cbn [length Nat.eqb]. replace (zn (S (length t)) <? m)%Z with false by (symmetry; apply Z.ltb_ge; cbn [length] in Hm; lia).
+  replace (e =? 0)%Z with false by (symmetry; apply Z.eqb_neq; exact He). reflexivity.
+Qed.
+
 (* a method called on a nil *Buffer: String answers "<nil>", as a nil bytes.Buffer pointer does *)
 Theorem nil_string_contract b s : step b (ONil 0%Z) = (b, (st_ok, nil_string)) /\ sstep s (ONil 0%Z) = (s, (st_ok, nil_string)).
 Proof. split; reflexivity. Qed.
